@@ -90,7 +90,48 @@ def chk_reverb_filters_nonempty(F):
         if not (nm == 'Rem' and ar and len(ar) == 2 and 'len(' in ar[1] and '.buffer' in ar[1]
                 and all(b.dominates(last[0], r) for r in b.return_blocks())):
             return False, '%s leaves current_index = %s: not reduced modulo buffer.len() on every path (the next index is out of bounds)' % (fn, last[2][:80])
-    return True, '%d filter constructions, all sized >= 1; indices wrapped modulo the length' % n
+    # ... and nothing else can break `current_index < buffer.len()` between two calls of process: outside the constructor's
+    # aggregate, `buffer` is never assigned and is borrowed mutably only to index into it (its length is the one it was built
+    # with), and `current_index` is written by process alone.  (A `resize` that keeps the index is the change this looks for.)
+    adts = ('effect::reverb::comb::CombFilter', 'effect::reverb::all_pass::AllPassFilter')
+    keep_len = ('std::ops::IndexMut::index_mut', 'std::ops::DerefMut::deref_mut')
+    nb = 0
+
+    def _guarded(pl):
+        for pr in pl.get('p') or []:
+            if pr and pr[0] == 'field' and len(pr) >= 4 and pr[3] in adts and pr[2] in ('buffer', 'current_index'):
+                return pr[3], pr[2]
+        return None
+
+    for o in F.bodies:
+        if o.krate != 'kira':
+            continue
+        for bb, si, s2 in o.stmts():
+            if s2['k'] != 'assign':
+                continue
+            g = _guarded(s2['lhs'])
+            if g and not (g[1] == 'current_index' and o.path == g[0] + '::process'):
+                return False, '%s assigns to %s::%s (line %s): the index is no longer known to be below the length in process' % (o.path, g[0].rsplit('::', 1)[1], g[1], s2.get('line'))
+            rv = s2['rv']
+            if rv['k'] in ('ref', 'rawptr') and rv.get('bk') != 'shared':
+                g = _guarded(rv['pl'])
+                if not g:
+                    continue
+                nb += 1
+                if g[1] == 'current_index':
+                    if o.path != g[0] + '::process':
+                        return False, '%s borrows %s::current_index mutably' % (o.path, g[0].rsplit('::', 1)[1])
+                    continue
+                l = s2['lhs']['l']
+                users = [((t.get('callee') or {}).get('path') or '?', callee_path(t) or '?') for _, t in o.calls()
+                         if any(a.get('pl', {}).get('l') == l for a in t['args'] if isinstance(a, dict))]
+                bad = [u[1] for u in users if u[0] not in keep_len and u[1] not in keep_len]
+                if bad or not users or s2['lhs']['p']:
+                    return False, '%s hands &mut %s::buffer to %s: the length may change while current_index is kept (index out of bounds in process)' % (
+                        o.path, g[0].rsplit('::', 1)[1], ', '.join(bad) or 'something other than an index operation')
+    if nb < 2:
+        return False, 'the element stores of the two filters were not found (%d mutable borrows of buffer)' % nb
+    return True, '%d filter constructions, all sized >= 1; indices wrapped modulo the length; buffer length and index written by new / process only (%d mutable borrows, all to index)' % (n, nb)
 
 
 def _strict_less(name, args):
